@@ -14,29 +14,44 @@ from harness import c20_util as U
 from translate import c20_formats as T
 
 MANIFEST = dict(
-    technique='Rocq proof (byte-level codec round trips for Hammer command sequences and the scenes.image container, '
-              'separation of printf conversions in SMD lines) + ast translators (struct formats, widths, version tag, '
-              'line templates) + vm_compute correspondence + round-trip/second-generation oracle search on all eight writers',
-    text='Theorems in Props/C20.v: for every configuration satisfying the obligations regenerated from cmdseq.py and every '
-         'representable value (ASCII, NUL-free, within field widths, distinct names) cmdseq.parse(cmdseq.write(v)) = v and the '
-         'second generation is byte-identical; struct unpack inverts pack for the dialect used; the scenes.image container '
-         '(VSIF header, string pool with offset table, CRC-sorted entry table, v2/v3 summaries, blobs; LZMA as a hypothesis '
-         'pair) round-trips and its entry table is sorted by checksum; every line SMD export can write keeps two printf '
-         'conversions apart by whitespace (kernel-checked on the lines regenerated from smd.py). The cmdseq and '
-         'scenes.image models are compared byte for byte with the implementation on every run. Choreo scenes (text, '
-         'binary), scenes.image with real scenes, soundscripts, VMT, PCF and SMD geometry are searched: generated values '
-         'inside each format\'s representable alphabet, write -> read -> equal, write again -> identical, plus the sample '
-         'files under tests/.',
-    note='Partial: proof level for cmdseq (complete) and the scenes.image container; the summary consistency of '
-         'Entry.from_scene, choreo event records, soundscripts, VMT, PCF and SMD geometry are decided by search only. '
-         'Trusted: Coq kernel + vm_compute, translate/c20_formats.py, hand models Fmt/CmdSeq.v and Fmt/ScenesImage.v (tied '
-         'by byte-exact differential runs), CPython struct/lzma/zlib.crc32. Known finding: text VCD flex-animation blocks '
-         'are written but the reader raises NotImplementedError.',
+    technique='Rocq proof (byte-level codec round trips: Hammer command sequences, the scenes.image container driven by a configuration '
+              'regenerated from choreo.py incl. string-pool construction and sort site, binary choreo scenes as layouts with a round-trip '
+              'theorem for every layout; quoted-field lexing for the text writers; field splitting of SMD lines; the scene summary) + five '
+              'fail-closed ast translators (struct formats with the value each field carries on both sides, sort and version sites, line / '
+              'field templates, operator-stack census, width paths of every binary writer/reader pair) + vm_compute correspondence on six '
+              'models + round-trip / second-generation oracle search on all eight writers',
+    text='Theorems in Props/C20.v (43): cmdseq.parse(cmdseq.write(v)) = v and byte-identical second generation for every configuration '
+         'satisfying the obligations regenerated from cmdseq.py; the scenes.image writer over the configuration regenerated from choreo.py '
+         'produces the bytes of the container model for both input forms whatever the dict keys are, parses back (header, pool through '
+         'the offset table, CRC-sorted table, v2/v3 summaries, blobs; LZMA as a hypothesis pair), its table is sorted by the stored '
+         'checksum, the string pool it builds gives every sound back, and equal images give identical files independently of caller '
+         'order / input form; refuted variants for sorting by dict key, by another attribute, and for filling the pool before sorting; '
+         'binary choreo scenes: decoding inverts encoding for EVERY layout (records, counted lists, marker-guarded parts, parts selected '
+         'by a head field or flag bit, nested records), in particular whole scenes with events, tags, ramps, flex tracks, loop / speak / '
+         'gesture tails, at the level of raw field values; the check proves per class that the layout takes exactly the width paths of '
+         'export_binary and of parse_binary; text writers: a field written escaped between quotes is lexed back whatever it holds, a raw '
+         'quoted field when it has no quote / backslash / line break, and the field census of choreo text / soundscripts / VMT regenerated '
+         'from the source satisfies the matching boolean; soundscript operator-stack blocks are paired with the attribute of the same '
+         'name on both sides; SMD: conversions never touch and every data line splits at whitespace into exactly its fields; '
+         'Entry.from_scene: last-speak <= duration, sounds strictly sorted with exactly the used sounds, order independence. '
+         'cmdseq, scenes.image (container, pool+sort), binary scene layout and scene summary models are compared with the implementation '
+         'byte for byte / value for value on every run. All eight writers are searched: generated values inside each format\'s alphabet, '
+         'write -> read -> equal, write again -> identical, plus the sample files under tests/.',
+    note='Partial: proof level for cmdseq (complete), the scenes.image container with pool and sort, binary scenes at raw-field level '
+         '(the float32 / byte quantisation of values and the Python objects behind the raw fields are outside the model), quoted fields of '
+         'the text writers at tokenizer level (not whole text files), SMD data lines at word level; soundscript / VMT / PCF / SMD / choreo '
+         'text whole-file round trips are decided by search only. Trusted: Coq kernel + vm_compute, translate/c20_formats.py, hand models '
+         'Fmt/CmdSeq.v, Fmt/ScenesImage.v, Fmt/ChoreoBin.v layouts, Fmt/SceneSummary.v (each tied by differential runs; the layouts also by '
+         'kernel-checked path equality with the generated paths), the tokenizer model KV/KvLex.v of C01, CPython struct/lzma/zlib.crc32. '
+         'Known finding: text VCD flex-animation blocks are written but the reader raises NotImplementedError.',
 )
 
 IMP_CS = ['Coq.Lists.List', 'Coq.NArith.NArith', 'Coq.ZArith.ZArith', 'Coq.Bool.Bool', 'SV.Fmt.CmdSeq', 'SV.Gen.CmdSeqFmt_gen']
-IMP_SMD = ['Coq.Lists.List', 'Coq.NArith.NArith', 'Coq.Arith.PeanoNat', 'SV.Fmt.SmdTpl', 'SV.Gen.SmdTpl_gen']
+IMP_SMD = ['Coq.Lists.List', 'Coq.NArith.NArith', 'Coq.Arith.PeanoNat', 'Coq.Bool.Bool', 'SV.Fmt.SmdTpl', 'SV.Fmt.SmdWords', 'SV.Gen.SmdTpl_gen']
 IMP_IMG = ['Coq.Lists.List', 'Coq.NArith.NArith', 'Coq.Bool.Bool', 'SV.Fmt.ScenesImage']
+IMP_TXT = ['Coq.Lists.List', 'Coq.NArith.NArith', 'Coq.Bool.Bool', 'SV.Fmt.TextFields', 'SV.Gen.TextFields_gen']
+IMP_CB = ['Coq.Lists.List', 'Coq.NArith.NArith', 'Coq.Bool.Bool', 'Coq.Arith.PeanoNat', 'SV.Fmt.ChoreoBin', 'SV.Gen.ChoreoBin_gen']
+IMP_IMGCFG = ['Coq.Lists.List', 'Coq.NArith.NArith', 'Coq.Bool.Bool', 'SV.Fmt.ScenesImage', 'SV.Fmt.ScenesImageCfg', 'SV.Gen.ScenesImg_gen']
 
 PRE = '''Import ListNotations. Open Scope N_scope.
 Fixpoint nl_eqb (a b : list N) : bool := match a, b with [], [] => true | x :: a', y :: b' => N.eqb x y && nl_eqb a' b' | _, _ => false end.
@@ -44,6 +59,43 @@ Definition onl_eqb (a b : option (list N)) : bool := match a, b with Some x, Som
 Fixpoint bad_idx {A} (f : A -> bool) (n : N) (l : list A) : list N := match l with [] => [] | x :: r => (if f x then [] else [n]) ++ bad_idx f (n + 1) r end.
 Definition unrle (l : list (N * N)) : list N := flat_map (fun p => repeat (fst p) (N.to_nat (snd p))) l.
 '''
+
+
+def theorems_async(ck: Ck, props_file: str):
+    """Ck.theorems with the slow part (one coqc printing the assumptions of every theorem) running in a thread while the
+    correspondences are evaluated; the returned function joins and records the obligations (same records, fixed position)."""
+    import re
+    import threading
+    from harness.common import ROCQ, _split_assumptions
+    txt = (ROCQ / props_file).read_text()
+    names = re.findall(r'^\s*(?:Theorem|Lemma|Corollary)\s+([A-Za-z0-9_\']+)', txt, re.M)
+    mod = 'SV.' + props_file[:-2].replace('/', '.')
+    body = f'Require Import {mod}.\n' + ''.join(f'Print Assumptions {n}.\n' for n in names)
+    box: dict = {}
+    th = threading.Thread(target=lambda: box.update(res=ck.coq_scratch(body, 'assumptions')))
+    th.start()
+
+    def finish() -> None:
+        th.join()
+        rc, out = box.get('res', (1, 'thread failed'))
+        if rc != 0:
+            ck.obligation(f'assumptions:{props_file}', False, out[-2000:])
+            ck.tie_broken.append(f'Print Assumptions failed for {props_file}')
+            return
+        for n, b in zip(names, _split_assumptions(out, len(names))):
+            ck.axioms[n] = b
+            ck.obligation(f'theorem:{n}', True, 'Qed; axioms: ' + ('none (closed under the global context)' if not b else ', '.join(b)))
+    return finish
+
+
+def par_eval(ck: Ck, jobs: list[tuple]) -> list:
+    """Evaluate independent batches concurrently (one coqc each; results in job order, so the outcome is deterministic).
+    job = (imports, [exprs], unique name, preamble)."""
+    from concurrent.futures import ThreadPoolExecutor
+    if not jobs:
+        return []
+    with ThreadPoolExecutor(max_workers=min(6, len(jobs))) as ex:
+        return list(ex.map(lambda j: ck.coq_eval(j[0], j[1], name=j[2], preamble=j[3]), jobs))
 
 
 def rle(b: bytes) -> str:
@@ -145,7 +197,7 @@ def cs_nonrepresentable(rng: random.Random, spec: dict) -> dict:
 
 
 def corr_cmdseq_write(ck: Ck) -> list[tuple[dict, bytes]]:
-    n = ck.budget(120, 1500)
+    n = ck.budget(40, 600)
     cases = []
     files = []
     for i in range(n):
@@ -166,11 +218,12 @@ def corr_cmdseq_write(ck: Ck) -> list[tuple[dict, bytes]]:
             ck.seen(('csw', json.dumps(spec, sort_keys=True)))
     ck.sample({'cmdseq_value': cases[0][0], 'impl_bytes_rle': cases[0][1][:300]})
     bad: list[int] = []
-    for lo in range(0, len(cases), 60):
-        part = cases[lo:lo + 60]
+    jobs = []
+    for lo in range(0, len(cases), 45):
+        part = cases[lo:lo + 45]
         lit = coq_list(f'({cs_coq_value(s)}, {e})' for s, e in part)
-        vals = ck.coq_eval(IMP_CS, [f'bad_idx (fun c : seqs * option (list N) => onl_eqb (write gen_cfg (fst c)) (snd c)) 0 {lit}'],
-                           name='cswrite', preamble=PRE_CS)
+        jobs.append((IMP_CS, [f'bad_idx (fun c : seqs * option (list N) => onl_eqb (write gen_cfg (fst c)) (snd c)) 0 {lit}'], f'cswrite{lo}', PRE_CS))
+    for lo, vals in zip(range(0, len(cases), 45), par_eval(ck, jobs)):
         if vals is None:
             ck.obligation('correspondence:cmdseq-write', False, 'model could not be evaluated')
             ck.tie_broken.append('correspondence cmdseq write: model evaluation failed')
@@ -249,7 +302,7 @@ def cs_mutate(rng: random.Random, data: bytes) -> tuple[str, bytes]:
 
 
 def corr_cmdseq_parse(ck: Ck, files: list[tuple[dict, bytes]]) -> None:
-    n = ck.budget(150, 2000)
+    n = ck.budget(60, 800)
     cases = []
     base = [d for _, d in files if len(d) < 6000] or [U.cmdseq_write({})]
     for i in range(n):
@@ -265,11 +318,12 @@ def corr_cmdseq_parse(ck: Ck, files: list[tuple[dict, bytes]]) -> None:
         if len(data) > 200:
             ck.seen(('csp', data))
     bad: list[int] = []
-    for lo in range(0, len(cases), 50):
-        part = cases[lo:lo + 50]
+    jobs = []
+    for lo in range(0, len(cases), 60):
+        part = cases[lo:lo + 60]
         lit = coq_list(f'(unrle {rle(d)}, {e})' for _, d, e in part)
-        vals = ck.coq_eval(IMP_CS, [f'bad_idx (fun c : list N * option (list N) => onl_eqb (option_map flat (parse gen_cfg (fst c))) (snd c)) 0 {lit}'],
-                           name='csparse', preamble=PRE_CS)
+        jobs.append((IMP_CS, [f'bad_idx (fun c : list N * option (list N) => onl_eqb (option_map flat (parse gen_cfg (fst c))) (snd c)) 0 {lit}'], f'csparse{lo}', PRE_CS))
+    for lo, vals in zip(range(0, len(cases), 60), par_eval(ck, jobs)):
         if vals is None:
             ck.obligation('correspondence:cmdseq-parse', False, 'model could not be evaluated')
             ck.tie_broken.append('correspondence cmdseq parse: model evaluation failed')
@@ -338,7 +392,7 @@ def image_case(rng: random.Random):
 def corr_image(ck: Ck) -> None:
     from srctools import binformat
     from srctools.choreo import save_scenes_image_sync, parse_scenes_image
-    n = ck.budget(120, 1500)
+    n = ck.budget(45, 600)
     wcases = []
     pcases = []
     for _ in range(n):
@@ -397,11 +451,12 @@ def corr_image(ck: Ck) -> None:
             ck.hist('image_parse', exp[0] if exp[0] == 'ok' else 'error:' + exp[1])
     ck.sample({'scenes_image_container_case': wcases[0][2], 'impl_file_hex': bytes(parse_coq_N_list(wcases[0][1])).hex()[:400]})
     bad: list[int] = []
-    for lo in range(0, len(wcases), 100):
-        part = wcases[lo:lo + 100]
+    jobs = []
+    for lo in range(0, len(wcases), 50):
+        part = wcases[lo:lo + 50]
         lit = coq_list(f'({a}, {b})' for a, b, _ in part)
-        vals = ck.coq_eval(IMP_IMG, [f'bad_idx (fun c : (N * list (list N) * list entry) * list N => let \'(v, pool, es) := fst c in nl_eqb (img_write_py v pool es) (snd c)) 0 {lit}'],
-                           name='imgwrite', preamble=PRE_IMG)
+        jobs.append((IMP_IMG, [f'bad_idx (fun c : (N * list (list N) * list entry) * list N => let \'(v, pool, es) := fst c in nl_eqb (img_write_py v pool es) (snd c)) 0 {lit}'], f'imgwrite{lo}', PRE_IMG))
+    for lo, vals in zip(range(0, len(wcases), 50), par_eval(ck, jobs)):
         if vals is None:
             ck.obligation('correspondence:scenes-image-write', False, 'model could not be evaluated')
             ck.tie_broken.append('correspondence scenes.image write: model evaluation failed')
@@ -425,14 +480,20 @@ def corr_image(ck: Ck) -> None:
     pre = PRE_IMG + '''
 Definition flat_p2 (p : pentry) : list N :=
   [p_crc p; p_dur p mod 4294967296; p_last p mod 4294967296] ++ N.of_nat (length (p_sounds p)) :: flat_map fs (p_sounds p) ++ fs (p_blob p).
+(* parse_scenes_image returns a dict keyed by checksum: a later record with the same checksum (malformed files only)
+   replaces the earlier one in place *)
+Fixpoint dict_ins (p : pentry) (l : list pentry) : list pentry :=
+  match l with [] => [p] | h :: t => if p_crc h =? p_crc p then p :: t else h :: dict_ins p t end.
+Definition dict_of (ps : list pentry) : list pentry := fold_left (fun acc p => dict_ins p acc) ps [].
 Definition flat_img2 (r : N * list (list N) * list pentry) : list N :=
-  let '(v, pool, ps) := r in v :: N.of_nat (length ps) :: flat_map flat_p2 ps.
+  let '(v, pool, ps) := r in v :: N.of_nat (length (dict_of ps)) :: flat_map flat_p2 (dict_of ps).
 '''
     fixed = plits
-    for lo in range(0, len(fixed), 120):
-        part = fixed[lo:lo + 120]
-        vals = ck.coq_eval(IMP_IMG, [f'bad_idx (fun c : list N * option (list N) => onl_eqb (option_map flat_img2 (img_parse (fst c))) (snd c)) 0 {coq_list(part)}'],
-                           name='imgparse', preamble=pre)
+    jobs = []
+    for lo in range(0, len(fixed), 70):
+        part = fixed[lo:lo + 70]
+        jobs.append((IMP_IMG, [f'bad_idx (fun c : list N * option (list N) => onl_eqb (option_map flat_img2 (img_parse (fst c))) (snd c)) 0 {coq_list(part)}'], f'imgparse{lo}', pre))
+    for lo, vals in zip(range(0, len(fixed), 70), par_eval(ck, jobs)):
         if vals is None:
             ck.obligation('correspondence:scenes-image-parse', False, 'model could not be evaluated')
             ck.tie_broken.append('correspondence scenes.image parse: model evaluation failed')
@@ -453,6 +514,345 @@ Definition flat_img2 (r : N * list (list N) * list pentry) : list N :=
         v, exp = pcases[real_bad[0]]
         ck.tie_broken.append('correspondence scenes.image parse (Fmt/ScenesImage.v img_parse vs parse_scenes_image)')
         ck.extra['image_parse_disagreement'] = {'file_hex': v.hex(), 'impl': repr(exp)[:600]}
+
+
+def corr_image_pool(ck: Ck) -> None:
+    """`img_save_s si_gen_cfg` (the writer over the configuration regenerated from choreo.py, including the construction of
+    the string pool and the sort) vs save_scenes_image_sync: dict form with fresh and stale keys, iterable form, raw
+    entries sharing a pool plus scene-backed entries, values struct.pack refuses."""
+    from srctools import binformat
+    from srctools.choreo import Entry, CRC, save_scenes_image_sync
+    n = ck.budget(40, 300)
+    cases = []
+    for _ in range(n):
+        rng = ck.rng
+        version = rng.choice([2, 3])
+        is_dict = rng.random() < 0.5
+        pool0: list[str] = []
+        while len(pool0) < rng.choice([0, 0, 2, 5]):
+            t = bytes(rng.randrange(1, 256) for _ in range(rng.randint(0, 5))).decode('latin1')
+            if t not in pool0:
+                pool0.append(t)
+        pool_obj = list(pool0)
+        ents = []
+        crcs: set[int] = set()
+        want_error = rng.random() < 0.08
+        for _ in range(rng.choice([0, 1, 2, 3, 4])):
+            crc = rng.choice([rng.getrandbits(32), rng.randrange(0, 8), 0xFFFFFFFF - rng.randrange(3)])
+            if crc in crcs:
+                continue
+            crcs.add(crc)
+            if rng.random() < 0.3:
+                sc = U.scene_build(U.scene_gen(rng, 'binary', flex_p=0.1))
+                e = Entry.from_scene('', sc)
+                e.checksum = CRC(crc)
+            else:
+                sounds = []
+                for _ in range(rng.choice([0, 0, 1, 2, 3])):
+                    sounds.append(rng.choice(pool0) if pool0 and rng.random() < 0.6 else 'snd%d' % rng.randrange(5))
+                blob = bytes(rng.randrange(256) for _ in range(rng.choice([0, 1, 7, 30])))
+                if rng.random() < 0.1:
+                    blob = bytes([rng.randrange(256)]) * 200
+                if blob[:4] == b'LZMA':
+                    blob = b'x' + blob
+                dur = rng.choice([0, 1, 4407, rng.getrandbits(32)])
+                last = rng.choice([0, dur % 2 ** 31, rng.getrandbits(31)])
+                e = Entry('', CRC(crc), dur, last, sounds, (blob, pool_obj))
+            ents.append(e)
+        if want_error and ents:
+            e = rng.choice(ents)
+            k = rng.choice(['last', 'dur', 'crc'])
+            if k == 'last':
+                e.last_speak_ms = 2 ** 31 + rng.randrange(5)      # '<i': refused in version 3, not written in version 2
+            elif k == 'dur':
+                e.duration_ms = 2 ** 32 + rng.randrange(5)
+            else:
+                e.checksum = CRC(2 ** 32 + rng.randrange(5))
+        rng.shuffle(ents)
+        keys = []
+        for e in ents:
+            keys.append(e.checksum if rng.random() < 0.6 else rng.getrandbits(32))
+        if len(set(keys)) != len(keys):
+            keys = [e.checksum for e in ents]
+        arg = {CRC(k): e for k, e in zip(keys, ents)} if is_dict else list(ents)
+        # strings each scene asks the pool for (independent of the pool's content)
+        strs = []
+        for e in ents:
+            req: list[str] = []
+            if not isinstance(e._data, tuple):
+                def rec(x: str, req=req) -> int:
+                    req.append(x)
+                    return 0
+                try:
+                    e._data.export_binary(rec)
+                except Exception:      # a broken binary writer: the save below fails too and is compared as such
+                    pass
+            strs.append(req)
+        f = io.BytesIO()
+        try:
+            save_scenes_image_sync(f, arg, version=version)
+            data = f.getvalue()
+            exp = f'Some {nl(data)}'
+            ck.hist('image_pool_case', 'bytes')
+        except struct.error:
+            data = None
+            exp = 'None'
+            ck.hist('image_pool_case', 'struct.error')
+        except Exception as e:     # anything else is not a refusal the model knows: compared as an (impossible) empty file
+            data = None
+            exp = 'Some []'
+            ck.hist('image_pool_case', 'error:' + type(e).__name__)
+        lits = []
+        final_pool = list(pool_obj)
+        if data is not None and not any(isinstance(e._data, tuple) for e in ents):
+            # no raw entry: the writer used a pool of its own; take it from the file (strings only, through the offset table)
+            try:
+                fh = io.BytesIO(data)
+                fh.seek(12)
+                [npool] = struct.unpack('<i', fh.read(4))
+                fh.seek(20)
+                final_pool = binformat.read_offset_array(fh, npool, 'latin1')
+            except Exception:       # a broken writer: the model comparison below reports it
+                final_pool = list(pool_obj)
+        for k, e, req in zip(keys, ents, strs):
+            if isinstance(e._data, tuple):
+                raw = e._data[0]
+            else:
+                try:
+                    raw = e._data.export_binary(binformat.find_or_insert(list(final_pool), lambda x: x))   # pool is complete: lookups only
+                except Exception:
+                    raw = b''
+            comp = binformat.compress_lzma(raw)
+            stored = comp if len(comp) < len(raw) else raw
+            snds = coq_list(nl(x.encode('latin1')) for x in e.sounds)
+            rq = coq_list(nl(x.encode('latin1')) for x in req)
+            lits.append(f'({k}, mkSentry {e.checksum} {e.duration_ms} {e.last_speak_ms} {snds} {rq} {nl(stored)})')
+        # the pool the writer starts from is the one the raw entries share; without a raw entry it starts empty
+        p0 = coq_list(nl(x.encode('latin1')) for x in (pool0 if any(isinstance(e._data, tuple) for e in ents) else []))
+        cases.append((f'(({str(is_dict).lower()}, {version}), {p0}, {coq_list(lits)}, {exp})',
+                      {'version': version, 'dict': is_dict, 'pool0': pool0, 'keys': keys, 'crcs': [e.checksum for e in ents],
+                       'sounds': [list(e.sounds) for e in ents], 'scene_strings': strs, 'impl': 'error' if data is None else data.hex()[:600]}))
+        ck.count('image_pool_cases')
+        ck.hist('image_pool_form', ('dict' if is_dict else 'iterable') + ('-stale-keys' if is_dict and keys != [e.checksum for e in ents] else ''))
+        if len(ents) >= 2 and data is not None:
+            ck.seen(('imgpool', data))
+    ck.sample({'scenes_image_pool_case': cases[0][1]})
+    bad: list[int] = []
+    jobs = []
+    for lo in range(0, len(cases), 40):
+        part = cases[lo:lo + 40]
+        lit = coq_list(c for c, _ in part)
+        jobs.append((IMP_IMGCFG, ['bad_idx (fun c : (bool * N) * list (list N) * list (N * sentry) * option (list N) => '
+                                  'let \'(dv, p0, kes, e) := c in onl_eqb (img_save_s si_gen_cfg (fst dv) (snd dv) p0 kes) e) 0 ' + lit], f'imgpool{lo}', PRE))
+    for lo, vals in zip(range(0, len(cases), 40), par_eval(ck, jobs)):
+        if vals is None:
+            ck.obligation('correspondence:scenes-image-pool-and-sort', False, 'model could not be evaluated')
+            ck.tie_broken.append('correspondence scenes.image pool/sort: model evaluation failed')
+            return
+        bad += [lo + i for i in parse_coq_N_list(vals[0])]
+    ck.obligation('correspondence:scenes-image-pool-and-sort', not bad,
+                  f'{len(cases)} images (dict with fresh / stale keys, iterable; raw entries sharing a pool and scene-backed entries; values struct.pack '
+                  f'refuses): img_save_s si_gen_cfg (configured writer incl. pool construction and sort) vs save_scenes_image_sync bytes/error: '
+                  f'{len(bad)} disagreements')
+    if bad:
+        ck.tie_broken.append('correspondence scenes.image pool/sort (Fmt/ScenesImageCfg.v img_save_s over Gen/ScenesImg_gen.v vs save_scenes_image_sync)')
+        ck.extra['image_pool_disagreement'] = cases[bad[0]][1]
+
+
+# ================================================================================================ binary choreo correspondence
+
+def _f32bits(x: float) -> int:
+    return struct.unpack('<I', struct.pack('<f', x))[0]
+
+
+def cb_scene_value(sc, pool: list[str]) -> str:
+    """A binary-mode scene as the value tree of Fmt/ChoreoBin.v `scene_lay` (raw field values; the pool is complete)."""
+    from srctools.choreo import GestureEvent, LoopEvent, SpeakEvent, CaptionType
+    ix = pool.index
+
+    def q(v: float, fac: float, top: int) -> int:
+        return min(top, max(0, round(v * fac)))
+
+    def curve(c) -> str:
+        return 'BL ' + coq_list(f'BN {nl([_f32bits(s.time), q(s.value, 255.0, 255)])} BE' for s in c.ramp) + ' BE'
+
+    def tags(ts, fac: float, top: int) -> str:
+        return 'BL ' + coq_list(f'BN {nl([ix(t.name), q(t.value, fac, top)])} BE' for t in ts) + ' BE'
+
+    def samples(ss) -> str:
+        return coq_list(f'BN {nl([_f32bits(s.time), q(s.value, 255.0, 255), s.curve_type.export_binary()])} BE' for s in ss)
+
+    def flex(t) -> str:
+        flags = (1 if t.active else 0) | (2 if t.dir_track is not None else 0)
+        tail = 'BE' if t.dir_track is None else f'(BL {samples(t.dir_track)} BE)'
+        return f'BS (BN {nl([ix(t.name), flags, _f32bits(t.min), _f32bits(t.max)])} (BL {samples(t.mag_track)} {tail})) BE'
+
+    def event(e) -> str:
+        if isinstance(e, LoopEvent):
+            tail = f'(BN {nl([e.loop_count & 0xFF])} BE)'
+        elif isinstance(e, SpeakEvent):
+            fl = (1 if (e.caption_type is not CaptionType.Disabled and e.use_combined_file) else 0) | (2 if e.use_gender_token else 0) \
+                | (4 if e.suppress_caption_attenuation else 0)
+            tail = f'(BN {nl([e.caption_type.value & 0xFF, ix(e.cc_token), fl])} BE)'
+        else:
+            tail = 'BE'
+        if e.tag_name is not None or e.tag_wav_name is not None:
+            rel = f'(Some (BN {nl([ix(e.tag_name or ""), ix(e.tag_wav_name or "")])} BE))'
+        else:
+            rel = 'None'
+        rest = f'(BO {rel} (BL {coq_list(flex(t) for t in e.flex_anim_tracks)} {tail}))'
+        if isinstance(e, GestureEvent):
+            rest = f'(BN {nl([_f32bits(e.gesture_sequence_duration)])} {rest})'
+        head = [e.type.value & 0xFF, ix(e.name), _f32bits(e.start_time), _f32bits(e.end_time)] + [ix(p) for p in e.parameters]
+        return (f'BN {nl(head)} (BS ({curve(e.ramp)}) (BN {nl([e.flags.value, _f32bits(e.dist_to_targ)])} '
+                f'(BS ({tags(e.relative_tags, 255.0, 255)}) (BS ({tags(e.timing_tags, 255.0, 255)}) '
+                f'(BS ({tags(e.absolute_playback_tags, 4096.0, 65535)}) (BS ({tags(e.absolute_shifted_tags, 4096.0, 65535)}) {rest}))))))')
+
+    def channel(c) -> str:
+        return f'BN {nl([ix(c.name)])} (BL {coq_list(f"BS ({event(e)}) BE" for e in c.events)} (BN {nl([int(c.active)])} BE))'
+
+    def actor(a) -> str:
+        return f'BN {nl([ix(a.name)])} (BL {coq_list(f"BS ({channel(c)}) BE" for c in a.channels)} (BN {nl([int(a.active)])} BE))'
+    from srctools.choreo import BINARY_VERSION
+    return (f'BN {nl([int.from_bytes(b"bvcd", "little"), BINARY_VERSION, sc.text_crc])} (BL {coq_list(f"BS ({event(e)}) BE" for e in sc.events)} '
+            f'(BL {coq_list(f"BS ({actor(a)}) BE" for a in sc.actors)} (BS ({curve(sc.ramp)}) (BN {nl([int(sc.ignore_phonemes)])} BE))))')
+
+
+def corr_choreo_bin(ck: Ck) -> None:
+    """`enc (scene_lay ...)` of Fmt/ChoreoBin.v vs Scene.export_binary, byte for byte, and `dec` of those bytes gives the value back."""
+    from srctools import binformat
+    n = ck.budget(40, 400)
+    cases = []
+    impl_errors: list[dict] = []
+    for _ in range(n):
+        spec = U.scene_gen(ck.rng, 'binary', flex_p=0.3)
+        try:
+            sc = U.scene_build(spec)
+        except Exception:
+            ck.count('generator_rejected_by_constructor')
+            continue
+        pool: list[str] = []
+        try:
+            data = sc.export_binary(binformat.find_or_insert(pool, lambda x: x))
+            val = cb_scene_value(sc, pool)
+        except Exception as e:       # the writer refuses a representable scene: reported as a disagreement (the model encodes it)
+            impl_errors.append({'spec': spec, 'error': repr(e)[:300]})
+            ck.hist('choreo_bin_case', 'error:' + type(e).__name__)
+            continue
+        cases.append((val, data, spec))
+        ck.count('choreo_bin_cases')
+        ck.hist('choreo_bin_events', sum(1 for _ in sc.iter_events()))
+        if len(data) > 60:
+            ck.seen(('cb', data))
+    if impl_errors:
+        ck.obligation('correspondence:vcd-binary-layout', False, f'Scene.export_binary raised on {len(impl_errors)} representable scenes '
+                      f'(the layout model encodes them): {impl_errors[0]["error"]}')
+        ck.tie_broken.append('correspondence binary choreo layout: the writer raises on representable scenes')
+        ck.extra['choreo_bin_disagreement'] = impl_errors[0]
+        return
+    if not cases:
+        ck.obligation('correspondence:vcd-binary-layout', False, 'no scene could be built')
+        return
+    pre = PRE + 'Definition L := scene_lay cb_type_gesture cb_type_loop cb_type_speak.\n' \
+        'Definition okcase (c : bval * list N) : bool := match enc L [] (fst c) with Some b => nl_eqb b (snd c) && ' \
+        'match dec L [] b with Some (_, []) => true | _ => false end | None => false end.\n'
+    jobs = []
+    for lo in range(0, len(cases), 20):
+        part = cases[lo:lo + 20]
+        jobs.append((IMP_CB, ['bad_idx okcase 0 ' + coq_list(f'({v}, {nl(d)})' for v, d, _ in part)], f'cbenc{lo}', pre))
+    bad: list[int] = []
+    for lo, vals in zip(range(0, len(cases), 20), par_eval(ck, jobs)):
+        if vals is None:
+            ck.obligation('correspondence:vcd-binary-layout', False, 'model could not be evaluated')
+            ck.tie_broken.append('correspondence binary choreo layout: model evaluation failed')
+            return
+        bad += [lo + i for i in parse_coq_N_list(vals[0])]
+    ck.obligation('correspondence:vcd-binary-layout', not bad,
+                  f'{len(cases)} generated binary scenes: enc (scene_lay) of the raw field values vs Scene.export_binary bytes, and dec consumes them '
+                  f'completely: {len(bad)} disagreements')
+    if bad:
+        ck.tie_broken.append('correspondence binary choreo layout (Fmt/ChoreoBin.v scene_lay vs Scene.export_binary)')
+        ck.extra['choreo_bin_disagreement'] = {'spec': cases[bad[0]][2], 'impl_hex': cases[bad[0]][1].hex()[:800]}
+
+
+# ================================================================================================ Entry.from_scene correspondence
+
+def corr_summary(ck: Ck) -> None:
+    """`summary_of` of Fmt/SceneSummary.v vs Entry.from_scene on generated binary scenes (float32 times, exact)."""
+    from fractions import Fraction
+    from srctools.choreo import Entry, EventType, CaptionType, SpeakEvent
+    n = ck.budget(60, 600)
+    cases = []
+    SC = 2 ** 160
+
+    def scaled(x: float) -> int | None:
+        f = Fraction(x) * SC
+        return int(f) if f.denominator == 1 and f >= 0 else None
+    for _ in range(n):
+        spec = U.scene_gen(ck.rng, 'binary', flex_p=0.0)
+        try:
+            sc = U.scene_build(spec)
+        except Exception:
+            ck.count('generator_rejected_by_constructor')
+            continue
+        # equal times, exact halves of a millisecond and events without end are rare in the generator: force some
+        evs = list(sc.iter_events())
+        for e in evs:
+            r = ck.rng.random()
+            if r < 0.15:
+                e.end_time = U.f32(ck.rng.choice([0.0005, 0.0015, 1.0005, 2.5, 0.25]) * ck.rng.choice([1, 2, 3]))
+            elif r < 0.25:
+                e.end_time = -1.0
+        lits = []
+        ok = True
+        for e in evs:
+            st, en = scaled(e.start_time), (0 if e.end_time == -1.0 else scaled(e.end_time))
+            if st is None or en is None:
+                ok = False
+                break
+            sp = isinstance(e, SpeakEvent)
+            lits.append(f'mkSev {e.type.value} ({st})%Z ({en})%Z {str(e.end_time != -1.0).lower()} {nl(map(ord, e.parameters[0]))} '
+                        f'{e.caption_type.value if sp else 0} {nl(map(ord, e.cc_token)) if sp else "[]"} {str(bool(sp and e.use_combined_file)).lower()}')
+        if not ok:
+            ck.count('summary_time_not_representable')
+            continue
+        try:
+            ent = Entry.from_scene('x.vcd', sc)
+            exp = f'(({int(ent.duration_ms)})%Z, ({int(ent.last_speak_ms)})%Z, {coq_list(nl(map(ord, x)) for x in ent.sounds)})'
+        except Exception as e:
+            ck.hist('summary_case', 'error:' + type(e).__name__)
+            exp = '((-1)%Z, (-1)%Z, [])'          # never equal to the model's value: counted as a disagreement
+        cases.append((f'({coq_list(lits)}, {exp})', {'spec': spec, 'summary': exp[:300]}))
+        ck.count('summary_cases')
+        ck.hist('summary_events', len(evs))
+        if len(evs) >= 2:
+            ck.seen(('sum', json.dumps(spec, sort_keys=True)))
+    if not cases:
+        ck.obligation('correspondence:scene-summary', False, 'no scene could be built')
+        return
+    pre = PRE + ('Require Import Coq.ZArith.ZArith.\n'
+                 'Fixpoint ll_eqb (a b : list (list N)) : bool := match a, b with [], [] => true | x :: a\', y :: b\' => nl_eqb x y && ll_eqb a\' b\' '
+                 '| _, _ => false end.\n'
+                 'Definition okc (c : list sev * (Z * Z * list (list N))) : bool :=\n'
+                 f'  let \'(d, l, s) := summary_of {EventType.Speak.value} {CaptionType.Master.value} {CaptionType.Slave.value} (fst c) in\n'
+                 '  let \'(d2, l2, s2) := snd c in Z.eqb d d2 && Z.eqb l l2 && ll_eqb s s2.\n')
+    jobs = []
+    for lo in range(0, len(cases), 60):
+        jobs.append((['Coq.Lists.List', 'Coq.NArith.NArith', 'Coq.Bool.Bool', 'SV.Fmt.SceneSummary'],
+                     ['bad_idx okc 0 ' + coq_list(c for c, _ in cases[lo:lo + 60])], f'summary{lo}', pre))
+    bad: list[int] = []
+    for lo, vals in zip(range(0, len(cases), 60), par_eval(ck, jobs)):
+        if vals is None:
+            ck.obligation('correspondence:scene-summary', False, 'model could not be evaluated')
+            ck.tie_broken.append('correspondence scene summary: model evaluation failed')
+            return
+        bad += [lo + i for i in parse_coq_N_list(vals[0])]
+    ck.obligation('correspondence:scene-summary', not bad,
+                  f'{len(cases)} generated scenes (float32 times, exact halves of a millisecond, events without end time, caption variants): '
+                  f'summary_of (Fmt/SceneSummary.v) vs Entry.from_scene (duration_ms, last_speak_ms, sounds): {len(bad)} disagreements')
+    if bad:
+        ck.tie_broken.append('correspondence scene summary (Fmt/SceneSummary.v summary_of vs Entry.from_scene)')
+        ck.extra['summary_disagreement'] = cases[bad[0]][1]
 
 
 # ================================================================================================ oracle search
@@ -499,6 +899,7 @@ def trigger(fmt: str, small: Any, res: tuple) -> str:
 def search_format(ck: Ck, name: str, n: int) -> None:
     fmt = U.FORMATS[name]
     found: dict[str, tuple] = {}
+    shrinks = 0
     for i in range(n):
         spec = fmt.gen(ck.rng)
         ck.count(f'roundtrip_{name}')
@@ -514,6 +915,13 @@ def search_format(ck: Ck, name: str, n: int) -> None:
         kind = (res[0], res[1])
         if sum(1 for k in found.values() if k[0] == kind) >= 3:
             continue
+        if shrinks >= 12:
+            # a writer broken for most inputs fails in many different places: the first dozen shrunk replays are enough,
+            # later kinds are still reported (unshrunk) but must not cost 250 round trips each
+            key = f'{name}:{res[0]}:{res[1]}:{trigger(name, spec, res)}'
+            found.setdefault(key, (kind, spec, res))
+            continue
+        shrinks += 1
 
         def fails(s, kind=kind):
             q = U.roundtrip(fmt, s)
@@ -527,6 +935,27 @@ def search_format(ck: Ck, name: str, n: int) -> None:
         ck.violation(key, f'{name}: {r2[0]} ({r2[1]}): write -> read -> compare -> write again fails on a representable value',
                      {'format': name, 'spec': small, 'result': [r2[0], r2[1], r2[2]],
                       'how': f'harness.c20_util.roundtrip(FORMATS[{name!r}], spec)'})
+
+
+def independent_summary(sc) -> tuple[int, int, list[str]]:
+    """(duration_ms, last_speak_ms, sounds) of a scene, computed without Scene.duration / Scene.used_sounds / playback_caption."""
+    from fractions import Fraction
+    from srctools.choreo import SpeakEvent, CaptionType
+    evs = list(sc.events) + [e for a in sc.actors for c in a.channels for e in c.events]
+
+    def ms(ts: list[float]) -> int:
+        t = max([Fraction(x) for x in ts], default=Fraction(0))
+        q, r = divmod(t * 1000, 1)
+        return int(q) + (1 if (r > Fraction(1, 2) or (r == Fraction(1, 2) and int(q) % 2 == 1)) else 0)
+    times = [(e.start_time if e.end_time == -1.0 else e.end_time) for e in evs]
+    sp_times = [(e.start_time if e.end_time == -1.0 else e.end_time) for e in evs if isinstance(e, SpeakEvent)]
+    snd: set[str] = set()
+    for e in evs:
+        if isinstance(e, SpeakEvent):
+            snd.add(e.parameters[0])
+            if e.caption_type is CaptionType.Master or (e.caption_type is CaptionType.Slave and not e.use_combined_file):
+                snd.add(e.cc_token or e.parameters[0])
+    return ms(times), ms(sp_times), sorted(snd)
 
 
 def image_extra(ck: Ck, n: int) -> None:
@@ -543,7 +972,12 @@ def image_extra(ck: Ck, n: int) -> None:
         except Exception as e:
             ck.violation(f'scenes-image:write-error:{type(e).__name__}:invariants', 'scenes.image could not be written', {'format': 'scenes-image', 'spec': spec})
             continue
-        crcs = U.image_table_crcs(data)
+        try:
+            crcs = U.image_table_crcs(data)
+        except Exception as e:
+            ck.violation(f'scenes-image:table-unreadable:{type(e).__name__}', 'the header of the written scenes.image does not lead to a readable '
+                         f'entry table (count / offset fields): {e!r}'[:300], {'format': 'scenes-image', 'spec': spec})
+            continue
         if crcs != sorted(crcs):
             ck.violation('scenes-image:table-not-sorted', 'entry table of the written scenes.image is not sorted by CRC', {'format': 'scenes-image', 'spec': spec, 'crcs': crcs})
         try:
@@ -588,8 +1022,14 @@ def image_extra(ck: Ck, n: int) -> None:
                     elif d3 != U.image_write((version, ents3)):
                         ck.violation('scenes-image:order-dependent:dict', 'the file depends on whether entries are passed as a dict or as a list',
                                      {'format': 'scenes-image', 'spec': spec})
-            # (d) summaries consistent with the scene after the round trip
+            # (d) summaries consistent with the scene after the round trip: against Entry.from_scene and against an
+            # independent computation (own loops over the events; not Scene.duration / used_sounds)
             for e in img.values():
+                ind = independent_summary(e.data)
+                st = (e.duration_ms, e.last_speak_ms if version == 3 else e.duration_ms, list(e.sounds))
+                if st != (ind[0], ind[1] if version == 3 else ind[0], ind[2]):
+                    ck.violation('scenes-image:summary-inconsistent:independent', f'stored summary {st} differs from the summary computed '
+                                 f'independently from the stored scene {ind}', {'format': 'scenes-image', 'spec': spec, 'crc': e.checksum})
                 again = Entry.from_scene('x', e.data)
                 want = (e.duration_ms, e.last_speak_ms if version == 3 else e.duration_ms, list(e.sounds))
                 got = (again.duration_ms, again.last_speak_ms if version == 3 else again.duration_ms, list(again.sounds))
@@ -650,7 +1090,8 @@ def sample_files(ck: Ck) -> None:
 
 # ================================================================================================ main
 
-QUICK = {'cmdseq': 150, 'smd': 500, 'sndscript': 500, 'vmt': 600, 'pcf': 300, 'vcd-text': 300, 'vcd-binary': 400, 'scenes-image': 100}
+QUICK = {'cmdseq': 150, 'smd': 500, 'sndscript': 500, 'vmt': 600, 'pcf': 300, 'vcd-text': 160, 'vcd-binary': 400, 'scenes-image': 50}
+THOROUGH_FACTOR = {'vcd-text': 25, 'scenes-image': 24}
 
 
 def run(ck: Ck) -> None:
@@ -665,26 +1106,45 @@ def run(ck: Ck) -> None:
         t_last[0] = now
     ck.rule = ('per format a seeded generator of JSON-able value specs restricted to the format\'s representable alphabet '
                '(harness/c20_util.py documents each alphabet); a case is distinct by its full spec and counted as non-trivial '
-               'when the spec is longer than 150 characters (it has at least one record with optional parts); cmdseq / '
-               'scenes.image correspondence cases are distinct by file bytes and non-trivial when they contain a command / two entries')
-    ck.trusted.append('hand-written models Fmt/CmdSeq.v, Fmt/ScenesImage.v (tied by byte-exact differential correspondence on every run)')
-    ck.trusted.append('CPython struct (float32 conversion of the version tag), lzma and zlib.crc32 (outside the models)')
+               'when the spec is longer than 150 characters (it has at least one record with optional parts); correspondence cases '
+               '(cmdseq, scenes.image container, scenes.image pool+sort, binary scene layout, scene summary) are distinct by file bytes / spec '
+               'and non-trivial when they contain a command / two entries / more than 60 bytes / two events')
+    ck.trusted.append('hand-written models Fmt/CmdSeq.v, Fmt/ScenesImage.v, Fmt/ScenesImageCfg.v (writer over the generated configuration), '
+                      'Fmt/ChoreoBin.v (layouts), Fmt/SceneSummary.v: tied by byte-exact / value-exact differential correspondence on every run; '
+                      'the layouts additionally by kernel-checked equality of their width paths with the paths regenerated from choreo.py')
+    ck.trusted.append('KV/KvLex.v (tokenizer model of C01) for the quoted-field theorems; the escape table is tied to tokenizer.py by C01')
+    ck.trusted.append('CPython struct (float32 conversion of the version tag and of scene times), lzma and zlib.crc32 (outside the models)')
     ck.assumptions += [
         'scenes.image: LZMA enters the theorem as a store/unstore pair with unstore (store d) = d; real payloads start with "bvcd", never with "LZMA"',
+        'scenes.image pool model: the blob of a scene-backed entry is taken as the bytes export_binary produces on the final pool; that it only '
+        'depends on the pool through the indexes is covered by the binary-layout correspondence, not by the pool theorem',
+        'binary choreo layouts work on raw field values: float32 bit patterns, the byte / 16-bit value already quantised, pool indexes; '
+        'the quantisation round(v*255) and the string pool lookups are exercised by the search, not modelled',
+        'text writers: the string mode of srctools.tokenizer.Tokenizer is the same code for every configuration with escapes enabled '
+        '(Keyvalues.parse for soundscripts, plain Tokenizer for text choreo scenes); VMT is read with escapes disabled: its census is an '
+        'obligation only, the lexing theorem is not claimed for it',
+        'scene summary: event times are non-negative float32 values (value * 1000.0 is then exact in double arithmetic)',
         'PCF: element UUIDs are fresh random values on every export (Particle has no UUID field); second-generation identity is checked with srctools.dmx.get_uuid replaced by a counter',
         'representable alphabets exclude: NUL / non-ASCII / over-long strings (cmdseq); quotes, comment starters and file extensions in SMD names; '
         'quote and backslash in soundscript strings; quote in VMT strings; single-link SMD vertices with weight != 1; '
-        'event-ramp edges without samples, time_zoom_lookup (VCD text); text-only fields in binary scenes and vice versa',
+        'event-ramp edges without samples, time_zoom_lookup (VCD text); text-only fields in binary scenes and vice versa; '
+        'last_speak_ms >= 2^31 in a version-3 scenes.image (signed field: struct.error, model returns None)',
     ]
     ok1 = ck.translate('CmdSeqFmt_gen', T.translate_cmdseq)
     ok2 = ck.translate('SmdTpl_gen', T.translate_smd)
-    built = ck.build(['Props/C20.vo'] + (['Gen/CmdSeqFmt_gen.vo'] if ok1 else []) + (['Gen/SmdTpl_gen.vo'] if ok2 else []))
+    ok3 = ck.translate('ScenesImg_gen', T.translate_scenes_image)
+    ok4 = ck.translate('TextFields_gen', T.translate_text_writers)
+    ok5 = ck.translate('ChoreoBin_gen', T.translate_choreo_bin)
+    built = ck.build(['Props/C20.vo'] + (['Gen/CmdSeqFmt_gen.vo'] if ok1 else []) + (['Gen/SmdTpl_gen.vo'] if ok2 else [])
+                     + (['Gen/ScenesImg_gen.vo'] if ok3 else []) + (['Gen/TextFields_gen.vo'] if ok4 else [])
+                     + (['Gen/ChoreoBin_gen.vo'] if ok5 else []))
     lap('translate+build')
-    if built:
-        ck.theorems('Props/C20.v')
-    lap('print-assumptions')
+    finish_theorems = theorems_async(ck, 'Props/C20.v') if built else None
+    def tie(res: dict, what: str) -> None:
+        if not all(res.values()):
+            ck.tie_broken.append(f'instance obligations about {what} fail: ' + ', '.join(k for k, v in res.items() if not v))
     if built and ok1:
-        ck.instance_obligations(IMP_CS, {
+        tie(ck.instance_obligations(IMP_CS, {
             'cmdseq_record_layout_is_B_i_s_s_i_i_s_i_i_with_pad_widths': 'fmt_v2_shape gen_cfg',
             'cmdseq_special_names_fit_exe_field_and_values_nonzero': 'specials_okb gen_cfg',
             'cmdseq_written_version_tag_selects_current_struct_on_read': 'version_selects_v2 gen_cfg',
@@ -694,39 +1154,128 @@ def run(ck: Ck) -> None:
             'cmdseq_blank_ensure_file_fills_the_field': 'Nat.eqb cs_blank_ensure cs_pad_ensure',
             'cmdseq_pack_order_is_parse_order': 'fkeys_eqb cs_write_order cs_parse_order && fkeys_eqb cs_write_order cs_model_order',
             'cmdseq_cfg_ok': 'cfg_okb gen_cfg',
-        }, name='cs')
+        }, name='cs'), 'cmdseq.py')
         lap('instance-cmdseq')
         files = corr_cmdseq_write(ck)
         lap('corr-cmdseq-write')
         corr_cmdseq_parse(ck, files)
         lap('corr-cmdseq-parse')
+    # the three template / path censuses are evaluated by one coqc (fewer processes); a failing group is named by its obligations
+    m_imps: list[str] = []
+    m_obs: dict[str, str] = {}
+    m_what: list[str] = []
     if built and ok2:
-        ck.instance_obligations(IMP_SMD, {
+        m_imps += IMP_SMD
+        m_what.append('smd.py Mesh.export')
+        m_obs.update({
             'smd_numeric_fields_separated': 'forallb line_ok smd_lines',
             'smd_every_line_terminated': 'Nat.eqb smd_unterminated_lines 0',
             'smd_line_census_nonempty': 'Nat.leb 10 (length smd_lines)',
-        }, name='smd')
-    lap('instance-smd')
+            'smd_every_conversion_delimited_by_whitespace_except_the_quoted_bone_name_line':
+                'forallb (fun l => delim true l || has_quote l) smd_lines && Nat.leb (length (filter has_quote smd_lines)) 1',
+            'smd_bone_line_is_index_quoted_name_parent': 'forallb (fun l => negb (has_quote l) || nodes_line_shape l) smd_lines '
+                                                         '&& Nat.eqb (length (filter has_quote smd_lines)) 1',
+            'smd_bone_line_pattern_is_the_modelled_one': 'smd_bytes_eqb smd_nodes_regex nodes_regex',
+        })
+    if built and ok4:
+        m_imps += IMP_TXT
+        m_what.append('the text writers (sndscript.py, vmt.py, choreo.py export_text)')
+        m_obs.update({
+            'sndscript_free_text_and_low_high_pairs_between_quotes': 'free_text_quoted snd_fields',
+            'sndscript_no_escape_outside_quotes': 'no_escape_outside_quotes snd_fields',
+            'sndscript_every_stack_block_written_from_the_attribute_it_is_read_into': 'stacks_paired snd_stacks_written snd_stacks_read',
+            'sndscript_field_census_nonempty': 'Nat.leb 5 (length snd_fields) && Nat.leb 3 (length snd_stacks_written)',
+            'vmt_free_text_quoted_or_quoted_on_demand_except_shader': 'free_text_quoted_or_on_demand 1 vmt_fields',
+            'vmt_field_census_nonempty': 'Nat.leb 5 (length vmt_fields)',
+            'vcd_text_free_text_escaped_and_quoted': 'free_text_escaped cho_fields',
+            'vcd_text_no_escape_outside_quotes': 'no_escape_outside_quotes cho_fields',
+            'vcd_text_block_keywords_are_literals_outside_quotes': 'keywords_bare cho_fields',
+            'vcd_text_field_census_nonempty': 'Nat.leb 40 (length cho_fields)',
+        })
+    if built and ok5:
+        m_imps += IMP_CB
+        m_what.append('choreo.py export_binary / parse_binary')
+        lay = {'Scene': 'scene_lay cb_type_gesture cb_type_loop cb_type_speak', 'Actor': 'actor_lay cb_type_gesture cb_type_loop cb_type_speak',
+               'Channel': 'channel_lay cb_type_gesture cb_type_loop cb_type_speak', 'Event': 'event_lay cb_type_gesture cb_type_loop cb_type_speak',
+               'FlexAnimTrack': 'flex_lay', 'Curve': 'curve_lay', 'Tag': 'tag_lay', 'TimingTag': 'tag_lay', 'AbsoluteTag': 'abstag_lay'}
+        for c in T._BIN_CLASSES:
+            m_obs[f'vcd_binary_{c}_writer_and_reader_walk_the_same_field_widths'] = f'paths_eqb cb_{c}_w cb_{c}_r && negb (Nat.eqb (length cb_{c}_w) 0)'
+            m_obs[f'vcd_binary_{c}_layout_model_has_exactly_the_paths_of_the_code'] = \
+                f'paths_eqb (paths_of ({lay[c]})) cb_{c}_w && paths_eqb (paths_of ({lay[c]})) cb_{c}_r'
+        m_obs['vcd_binary_all_record_classes_agree'] = 'classes_agree cb_classes'
+        m_obs['vcd_binary_event_kinds_with_extra_fields_agree'] = (
+            'cb_nl_eqb cb_kinds_w cb_kinds_r && existsb (N.eqb cb_type_gesture) cb_kinds_r && existsb (N.eqb cb_type_loop) cb_kinds_r '
+            '&& existsb (N.eqb cb_type_speak) cb_kinds_r && negb (N.eqb cb_type_gesture cb_type_loop) && negb (N.eqb cb_type_loop cb_type_speak) '
+            '&& negb (N.eqb cb_type_gesture cb_type_speak)')
+    if m_obs:
+        tie(ck.instance_obligations(list(dict.fromkeys(m_imps)), m_obs, name='tpl'), ' / '.join(m_what))
+    lap('instance-smd+text+choreo-bin')
+    if built and ok5:
+        corr_choreo_bin(ck)
+    lap('corr-choreo-bin')
+    if built:
+        corr_summary(ck)
+    lap('corr-summary')
     if built:
         corr_image(ck)
     lap('corr-image')
+    if built and ok3:
+        c = 'si_gen_cfg'
+        tie(ck.instance_obligations(IMP_IMGCFG, {
+            'image_magic_is_VSIF_on_both_sides': f'magic_okb {c}',
+            'image_header_is_4s_version_scenes_strings_offset': f'hdr_okb {c}',
+            'image_header_writer_and_reader_agree': f'same_layout hsrc_eqb (ic_hdr_w {c}) (ic_hdr_r {c})',
+            'image_table_record_is_crc_dataoff_datasize_summaryoff': f'ent_okb {c}',
+            'image_table_record_writer_and_reader_agree': f'same_layout esrc_eqb (ic_ent_w {c}) (ic_ent_r {c})',
+            'image_summaries_are_duration_lastspeak_count': f'sum_okb {c}',
+            'image_summary_writer_and_reader_agree': f'same_layout ssrc_eqb (ic_sumL_w {c}) (ic_sumL_r {c}) && same_layout ssrc_eqb (ic_sumS_w {c}) (ic_sumS_r {c})',
+            'image_sound_index_is_one_int_through_the_pool': f'snd_okb {c} && ic_sounds_through_pool {c}',
+            'image_pool_offsets_are_ints_in_a_4_byte_slot_each': f'pooloff_okb {c}',
+            'image_version_tests_agree': f'version_okb {c}',
+            'image_table_sort_key_is_the_stored_checksum_for_every_input_form': f'sort_table_okb {c}',
+            'image_sorted_before_the_pool_is_filled_for_every_input_form': f'sort_pool_okb {c}',
+            'image_deferred_slots_keyed_by_checksum': f'eattr_eqb (ic_defer_key {c}) ACrc',
+            'image_layout_written_in_file_order': f'ic_layout_in_order {c}',
+            'image_short_summary_reads_last_speak_as_duration': f'ic_short_summary_last_is_duration {c}',
+            'image_strings_same_encoding_on_both_sides': f'ic_same_encoding {c}',
+            'image_reader_keys_entries_by_stored_checksum': f'ic_reader_keys_by_crc {c}',
+            'image_cfg_ok': f'icfg_okb {c}',
+        }, name='imgcfg'), 'choreo.py save_scenes_image_sync / parse_scenes_image')
+        lap('instance-image')
+        corr_image_pool(ck)
+        lap('corr-image-pool')
+    if finish_theorems is not None:
+        finish_theorems()
+    lap('print-assumptions(join)')
     # ---- search (always; larger when a tie is broken)
     for name, q in QUICK.items():
-        search_format(ck, name, ck.budget(q, q * 25))
+        search_format(ck, name, ck.budget(q, q * THOROUGH_FACTOR.get(name, 25)))
         lap('search-' + name)
-    image_extra(ck, ck.budget(25, 300))
+    image_extra(ck, ck.budget(15, 150))
     sample_files(ck)
     lap('image-invariants+samples')
     ck.sample({'smd_lines_from_source': ck.extra.get('translated', {}).get('SmdTpl_gen', {}).get('lines', [])[:6]})
     # ---- broken obligations explained by concrete inputs
     keys = [v['key'] for v in ck.violations]
-    if any(k.startswith('smd:read-error') for k in keys):
-        ck.explain('instance:smd_numeric_fields_separated')
+    if any(k.startswith('smd:read-error') or k.startswith('smd:value-diff') for k in keys):
+        ck.explain('instance:smd_')
     if any(k.startswith('cmdseq:') for k in keys):
         for o in ('instance:cmdseq_', 'correspondence:cmdseq'):
             ck.explain(o)
+    if any(k.startswith(('vcd-binary:', 'scenes-image:read-error', 'scenes-image:value-diff', 'scenes-image:write-error')) for k in keys):
+        ck.explain('instance:vcd_binary_')
+        ck.explain('translate:ChoreoBin_gen')
+        ck.explain('correspondence:vcd-binary-layout')
+    if any(k.startswith('scenes-image:summary-inconsistent') for k in keys):
+        ck.explain('correspondence:scene-summary')
+    for pre, ob in (('sndscript:', 'instance:sndscript_'), ('vmt:', 'instance:vmt_'), ('vcd-text:', 'instance:vcd_text_')):
+        if any(k.startswith(pre) and not k.endswith('flex-animation-block') for k in keys):
+            ck.explain(ob)
+            ck.explain('translate:TextFields_gen')
     if any(k.startswith('scenes-image:') for k in keys):
         ck.explain('correspondence:scenes-image')
+        ck.explain('instance:image_')
+        ck.explain('translate:ScenesImg_gen')
 
 
 def replay(data: dict) -> int:
